@@ -209,7 +209,11 @@ def gen_lim(rng, n, wf):
                             d = rng.randrange(1, out + 1); out -= d; nested.append(d)
                     else:
                         nested.append(rng.choice([1, 1, 2, 3, -1, -2, 0, 7]))
-            ls.append("put %d %s" % (v, " ".join(map(str, nested))))
+            if not wf and rng.random() < 0.3:
+                v += 1
+                ls.append("put2 %d %d %s" % (v - 1, v, " ".join(map(str, nested))))
+            else:
+                ls.append("put %d %s" % (v, " ".join(map(str, nested))))
             if wf:
                 # admitted iff count+tries < th; with wf decrements count == out before the nested ones ...
                 # the generator does not need to know: the monitor recomputes from the outputs
@@ -422,6 +426,10 @@ def mon_lim(ls, out):
                 outst -= int(d)
             if p[0] == "1":
                 outst += 1
+        elif w[0] == "put2":
+            for d in w[3:]:
+                outst -= int(d)
+            outst += p[0].count("1")
         elif w[0] == "dec":
             outst -= int(w[1])
         if outst > th:
@@ -786,13 +794,13 @@ def report_cex(ck, model, script, problem, noguard=False):
 # ---------------------------------------------------------------------------------------------
 # stages
 # ---------------------------------------------------------------------------------------------
-def exhaustive_scripts(model, mode):
-    """short exhaustive op scripts used by the failing-input search"""
+def exhaustive_scripts(model, mode, maxlen=99):
+    """short exhaustive op scripts (coverage in every run; also used by the failing-input search)"""
     res = []
     if model == "c15buf":
         for kind in ("queue", "buffer", "seq"):
             alpha = ["put", "get", "reserve", "release", "consume"]
-            for L in range(1, 6):
+            for L in range(1, min(6, maxlen + 1)):
                 for combo in itertools.product(alpha, repeat=L):
                     if combo[0] != "put":
                         continue
@@ -808,23 +816,23 @@ def exhaustive_scripts(model, mode):
             # forwarding variants
             for perm in itertools.permutations(range(4)):
                 res.append(["reset seq %d 0" % mode] + ["put %d" % (t * 8) for t in perm] + ["put %d" % (perm[0] * 8 + 1)])
-            for tags in itertools.product(range(6), repeat=5):
+            for tags in itertools.product(range(6), repeat=min(5, maxlen)):
                 if len(res) > 6000:
                     break
                 res.append(["reset seq %d 0" % mode] + ["put %d" % (t * 8 + i) for i, t in enumerate(tags)])
     elif model == "c15jq":
-        for L in range(2, 8):
+        for L in range(2, min(8, maxlen + 3)):
             for combo in itertools.product([0, 1], repeat=L):
                 res.append(["reset 2 0"] + ["put %d %d" % (p, i + 1) for i, p in enumerate(combo)])
     elif model == "c15lq":
         for th in (1, 2):
-            for L in range(2, 8):
+            for L in range(2, min(8, maxlen + 2)):
                 for combo in itertools.product(["put", "dec 0", "dec 1"], repeat=L):
                     s = ["reset %d" % th]; v = 0; outst = 0
                     res.append(s + [("put %d" % (i + 1)) if c == "put" else c for i, c in enumerate(combo)])
     elif model == "c15ow":
         for once in (0, 1):
-            for L in range(2, 6):
+            for L in range(2, min(6, maxlen + 1)):
                 for combo in itertools.product(["reg 0", "put", "get"], repeat=L):
                     res.append(["reset %d" % once] + [("put %d" % (i + 1)) if c == "put" else c for i, c in enumerate(combo)])
     return res
@@ -882,6 +890,9 @@ def stage_model(ck, model, scripts, label, mode):
             k = classify_key(model, small, MONITORS[model](small, o2) or mon)
             if k in keys:
                 continue
+            if any(c["key"] == k for c in ck.counterexamples):      # same finding already reported by an earlier stage
+                keys.add(k)
+                continue
             keys.add(report_cex(ck, model, small, mon, noguard=noguard))
     elif bad_corr and model in MONITORS:
         # the model no longer describes the code: look for an input on which the PROPERTY fails
@@ -927,24 +938,29 @@ def run_mt(ck):
     libs, _ = tbb_libs()
     exe = cxx_build("C15", "mt", ["harness/c15/mt.cpp"], flags=["-O1", "-g", "-pthread"], libs=libs)
     quick = ck.tier == "quick"
-    reps = 6 if quick else 60
+    reps = 10 if quick else 150
     N = 1500 if quick else 6000
     plan = [("queue", 4, N, 0), ("buffer", 4, N, 0), ("seq", 4, N, 0), ("prio", 4, N, 0), ("lim", 3, N // 2, 3), ("lim", 4, N // 3, 1),
             ("limq", 3, N // 2, 2), ("jq", 2, N, 0), ("jr", 2, N, 0), ("jqm", 2, N // 3, 0), ("jk", 3, N, 0)]
     bad = []
+    inconclusive = []
     runs = 0
     for sc, P, n, T in plan:
         for r in range(reps):
             seed = ck.seed * 1000 + r
-            rc, out, err = sh([exe, sc, str(seed), str(P), str(n), str(T)], timeout=300)
+            rc, out, err = sh([exe, sc, str(seed), str(P), str(n), str(T)], timeout=90)
             runs += 1
             ck.count(P * n, ("mt", sc))
-            if rc != 0 or "VIOLATION" in out or "ok " not in out:
+            if "VIOLATION" in out:
                 bad.append((sc, seed, P, n, T, "rc=%d %s %s" % (rc, out.strip(), err[-200:])))
+                break
+            if rc != 0 or "ok " not in out:
+                inconclusive.append((sc, seed, P, n, T, "rc=%d %s %s" % (rc, out.strip(), err[-200:])))
                 break
     ck.extra["mt_runs"] = runs
     ck.oblige("monitor:multi-threaded real runs (FIFO per producer, sequencer exact order, priority drain, limiter ghost counter at an "
               "instrumented successor, join tuple consistency)", "correspondence", not bad, bad[:2])
+    ck.oblige("monitor:multi-threaded real runs terminate with every message delivered", "correspondence", not inconclusive, inconclusive[:2])
     for sc, seed, P, n, T, what in bad[:1]:
         ck.counterexample("mt:%s" % sc, "multi-threaded scenario %s seed %d: %s" % (sc, seed, what),
                           {"engine": "E-REAL", "harness": "harness/c15/mt.cpp", "args": [sc, str(seed), str(P), str(n), str(T)], "observed": what, "repeat": 200})
@@ -955,7 +971,9 @@ def run(ck):
                "reserved slots and holes; nodes: puts / try_get / reserve / release / consume interleaved with successor-mode flips (accept all, "
                "reject all, reject multiples of m), sequence numbers from a drifting window with duplicates, stale and far-ahead tags; priority "
                "batches of 1-5 aggregator ops; limiter puts with nested decrements sent by the successor *during* the put (racing point) with "
-               "deltas in {1,2,3,0,-1,-2,7,9} plus well-formed decrement scripts for the ghost monitor; join arrivals at random ports, key "
+               "deltas in {1,2,3,0,-1,-2,7,9}, two puts in flight at once (put2: a second thread is admitted while the first put is "
+               "between admission and completion) plus well-formed decrement scripts for the ghost monitor; all short op scripts "
+               "(length <= 4 quick / <= 5-7 thorough) for buffer/queue/sequencer, queueing join, queue->limiter, overwrite/write_once; join arrivals at random ports, key "
                "multisets from 6 keys with duplicates, pulls by try_get; multi-threaded runs with 2-4 external threads. distinct = distinct "
                "(model, operation, result class) triples")
     ck.assumptions += [
@@ -973,7 +991,9 @@ def run(ck):
         "not modelled: try_put_and_wait metainfo (preview), reset()/rf_clear_edges, exceptions thrown by user bodies/copy constructors, "
         "hash_buffer bucket layout (abstracted to an association list; compared through sorted dumps), successor caches beyond what the "
         "scripted successors exercise (C14), node priorities",
-        "a scratch $VERIF_REPO without _build links /repo's libtbb (C15's code is header-only)"]
+        "a scratch $VERIF_REPO without _build links /repo's libtbb (C15's code is header-only)",
+        "pinned tree: buffer_node::internal_pop ignores my_reserved (Generated bufferPopMode = 0): buffer_reservation_safe / "
+        "reserved_front_stable apply to buffer_node only for mode >= 1; the failing input is replayed under key " + KEY_STEAL]
     ck.trusted += ["harness/c15/*.cpp (scripted successors/senders, white-box dumps via -fno-access-control)", "checks/c15.py monitors + script "
                    "generators", "Driver/C15.lean composites (forwarding-task loops around the proved atomic steps)",
                    "correspondence is sampled (differential), not proved"]
@@ -984,7 +1004,7 @@ def run(ck):
     _exes["ib"] = cxx_build("C15", "ib", ["harness/c15/ib.cpp"], flags=["-O1", "-g", "-fno-access-control", "-fsanitize=address,undefined",
                                                                         "-fno-sanitize-recover=all", "-pthread"], libs=libs)
     quick = ck.tier == "quick"
-    k = 1 if quick else 12
+    k = 8 if quick else 120
     rng = ck.rng
     stage_model(ck, "c15ib", [gen_ib(rng, 60) for _ in range(150 * k)], "item_buffer (E-PURE white-box)", mode)
     corpus_buf = [["reset buffer %d" % mode, "put 7", "reserve", "get", "consume", "put 8", "put 9", "get", "get"],
@@ -1004,6 +1024,10 @@ def run(ck):
     stage_model(ck, "c15jr", [gen_join(rng, 40, "jr") for _ in range(100 * k)], "join_node reserving", mode)
     stage_model(ck, "c15ow", [gen_ow(rng, 30) for _ in range(80 * k)], "overwrite/write_once nodes", mode)
     stage_model(ck, "c15misc", [gen_misc(rng, 20) for _ in range(40 * k)], "broadcast/split/indexer nodes", mode)
+    ml = 4 if quick else 99
+    for m, lab in (("c15buf", "buffer/queue/sequencer nodes"), ("c15jq", "join_node queueing"), ("c15lq", "queue_node->limiter_node"),
+                   ("c15ow", "overwrite/write_once nodes")):
+        stage_model(ck, m, exhaustive_scripts(m, mode, ml), lab + ", all short scripts", mode)
     run_mt(ck)
     # the generated obligation about buffer_node is explained by the (known) finding iff its replay was produced
     if mode == 0:
@@ -1034,13 +1058,15 @@ def _mon_lim(ls, out):
         if o in ("ok", "bad-op"):
             continue
         p = parts(o)
-        ds = [int(x) for x in (w[2:] if w[0] == "put" else w[1:2] if w[0] == "dec" else [])]
+        ds = [int(x) for x in (w[2:] if w[0] == "put" else w[3:] if w[0] == "put2" else w[1:2] if w[0] == "dec" else [])]
         for d in ds:
             if d <= 0 or d > outst:
                 return None          # not in the class on which the ghost is observable
             outst -= d
         if w[0] == "put" and p[0] == "1":
             outst += 1
+        if w[0] == "put2":
+            outst += p[0].count("1")
     return _mon_lim_raw(ls, out)
 
 
